@@ -36,6 +36,7 @@ public:
   virtual ParameterRemap *remap_parameter(CPPType *struct_type, CPPType *param_type);
 
   virtual bool synthesize_this_parameter();
+  virtual bool is_remap_wrapped(FunctionRemap *remap);
 
 protected:
   virtual std::string get_wrapper_prefix();
